@@ -67,7 +67,7 @@ Same(t, e) ==
 
 Good == /\ TypeOK /\ LockOK /\ NoSendToClosed /\ OldVersionsClosed /\ PerVmInOrder
         /\ ExactlyOneVersion /\ NeverNeither /\ OnlyLoaded
-        /\ (Strict => NoOverlap /\ WritesInArrivalOrder /\ LastWriteIsLastLine)
+        /\ (Strict => NoOverlap /\ WritesInArrivalOrder /\ LastWriteIsLastLine /\ NoWriteLost)
 
 TInit == /\ Init
          /\ seg \in 1..Len(Segs)
@@ -132,13 +132,15 @@ TNewRuntime ==
   /\ vm' = [p \in Progs |-> [v \in Vers |-> NoVm]]
   /\ rl' = [pc |-> "none", p |-> 0, ver |-> 0]
   /\ nloads' = 0 /\ writes' = [p \in Progs |-> <<>>] /\ procd' = {} /\ due' = {} /\ h' = <<>>
+  /\ store' = [p \in Progs |-> 0] /\ dat' = [p \in Progs |-> [v \in Vers |-> 0]]
+  /\ val' = [p \in Progs |-> [v \in Vers |-> <<0, 0>>]]
   /\ vmid' = << >> /\ txt' = << >>
   /\ UNCHANGED <<seg, i, owed>>
 
 \* a Runtime built with CompileOnly returns after rt.load.registered
 TCompileOnly == /\ rl.pc = "atreg" /\ Loaded = {} /\ nrecv = 0
                 /\ rl' = [rl EXCEPT !.pc = "done"]
-                /\ UNCHANGED <<nrecv, fan, handle, nver, vm, nloads, writes, procd, due, h, tvars>>
+                /\ UNCHANGED <<nrecv, fan, handle, nver, vm, nloads, writes, store, dat, val, procd, due, h, tvars>>
 
 TraceNext == (TOwed \/ TEmit \/ TSilent \/ TEnd \/ TNewRuntime \/ TCompileOnly) /\ (Guarded => Good')
 TraceSpec == TInit /\ [][TraceNext]_<<vars, tvars>>
